@@ -607,6 +607,14 @@ func (m *Machine) crossCheck(neg *Term) string {
 	}
 	s.send(m.script(neg))
 	r := s.checkSat()
+	if strings.HasPrefix(r, "unknown") && s.name != "cvc5" {
+		// once more with four times the time (a loaded machine must not turn a decidable query into
+		// an inconclusive check); still unknown stays unknown
+		s.send("(reset)")
+		s.send(fmt.Sprintf("(set-option :timeout %d)", 4*solverTimeoutMs))
+		s.send(m.script(neg))
+		r = s.checkSat()
+	}
 	if strings.HasPrefix(r, "unknown") {
 		dbg("cross-check %s: %s\n%s", s.name, r, m.script(neg))
 		return "unknown"
